@@ -114,17 +114,22 @@ def probe_debiaser(L, S):
         warnings.simplefilter("ignore")
         return Probe(running_window_mode=True, running_window_length=L, running_window_step_length=S)
 
-def dates(start, n):
+TIME_REPS = ["object", "datetime64[D]", "datetime64[s]", "datetime64[ns]"]
+def dates(start, n, rep="object"):
+    """time axis as an object array of datetime.date (what create_array_of_consecutive_dates gives) or as numpy datetime64
+    of some unit (what an xarray / netCDF time coordinate gives)"""
     from ibicus.utils import create_array_of_consecutive_dates
-    return create_array_of_consecutive_dates(n, np.datetime64(start))
+    if rep == "object":
+        return create_array_of_consecutive_dates(n, np.datetime64(start))
+    return np.arange(np.datetime64(start, "D"), np.datetime64(start, "D") + np.timedelta64(n, "D")).astype(rep)
 
-def impl_probe_check(start_f, n_f, start_o, n_o, start_h, n_h, L, S, d=None):
+def impl_probe_check(start_f, n_f, start_o, n_o, start_h, n_h, L, S, d=None, rep="object"):
     d = d if d is not None else probe_debiaser(L, S)
     f = np.arange(n_f, dtype=float)
     with warnings.catch_warnings():
         warnings.simplefilter("ignore")
-        out = d.apply_location(np.zeros(n_o), np.zeros(n_h), f, time_obs=dates(start_o, n_o),
-                               time_cm_hist=dates(start_h, n_h), time_cm_future=dates(start_f, n_f))
+        out = d.apply_location(np.zeros(n_o), np.zeros(n_h), f, time_obs=dates(start_o, n_o, rep),
+                               time_cm_hist=dates(start_h, n_h, rep), time_cm_future=dates(start_f, n_f, rep))
     if out.shape != f.shape:
         return "shape", dict(shape=list(out.shape))
     if not np.all(np.isfinite(out)):
@@ -328,15 +333,16 @@ def search(res, tier, seed, deep=False):
         if i % 5 == 0:   # corner: span multiple of step, sub-annual, not starting 1 Jan
             S = odd_up(S); n_f = S * r.randint(1, 6); L = max(L, S)
             start_f = datetime.date(2001, r.randint(1, 6), r.randint(2, 28))
+        rep = TIME_REPS[(i // 2) % 4] if i % 2 else "object"
         try:
-            bad, det = impl_probe_check(start_f, n_f, start_o, n_o, start_h, n_h, L, S)
+            bad, det = impl_probe_check(start_f, n_f, start_o, n_o, start_h, n_h, L, S, rep=rep)
         except Exception as e:
             bad, det = "exception:" + type(e).__name__, dict(error=repr(e)[:300])
-        res.case(("C", n_f > 366, i % 5 == 0))
+        res.case(("C", n_f > 366, i % 5 == 0, rep))
         if bad:
             report("RunningWindowDebiaser.apply_location", bad,
                    dict(kind="probe", start_future=str(start_f), n_future=n_f, start_obs=str(start_o), n_obs=n_o,
-                        start_cm_hist=str(start_h), n_cm_hist=n_h, L=L, S=S), det,
+                        start_cm_hist=str(start_h), n_cm_hist=n_h, L=L, S=S, time_dtype=rep), det,
                    "probe debiaser (apply_on_window = cm_future+1) through apply_location: output is not cm_future+1 at every time step")
     # D. the same debiaser instance applied to a sequence of series of different lengths and start dates
     #    (a short trial period, then the full period, ...): every call on its own terms
@@ -402,7 +408,7 @@ def replay(w):
         else:
             p = lambda s: datetime.date.fromisoformat(s)
             bad, det = impl_probe_check(p(inp["start_future"]), inp["n_future"], p(inp["start_obs"]), inp["n_obs"],
-                                        p(inp["start_cm_hist"]), inp["n_cm_hist"], inp["L"], inp["S"])
+                                        p(inp["start_cm_hist"]), inp["n_cm_hist"], inp["L"], inp["S"], rep=inp.get("time_dtype", "object"))
     except Exception as e:
         bad, det = "exception:" + type(e).__name__, dict(error=repr(e)[:300])
     return bool(bad), (bad, det)
